@@ -101,7 +101,7 @@ inductive Arg where
 
 /-- how the type of the result is obtained (asm newXxxInst: from the types WRITTEN in the defining instruction) -/
 inductive ResKind where
-  | none | first | cmp | loadTy | second | lastTy
+  | none | first | cmp | loadTy | second | lastTy | elem | firstVec | shuffle | ptrOf
 
 structure Row where
   hasRes : Bool
@@ -162,7 +162,34 @@ def rows : List Row := [
   ⟨true, [98, 105, 116, 99, 97, 115, 116, 32], .void, [.tyval, .lit sTo, .ty], .lastTy, false⟩,
   ⟨true, [97, 100, 100, 114, 115, 112, 97, 99, 101, 99, 97, 115, 116, 32], .void, [.tyval, .lit sTo, .ty], .lastTy, false⟩,
   ⟨true, [112, 104, 105, 32], .void, [.ty, .lit [32], .phis], .loadTy, false⟩,
-  ⟨true, [102, 114, 101, 101, 122, 101, 32], .void, [.tyval], .first, false⟩
+  ⟨true, [102, 114, 101, 101, 122, 101, 32], .void, [.tyval], .first, false⟩,
+  -- 45: fneg; 46–50: fadd fsub fmul fdiv frem; 51–66: fcmp (16 predicates); 67–69: extractelement insertelement shufflevector; 70: alloca
+  ⟨true, [102, 110, 101, 103, 32], .void, [.tyval], .first, false⟩,
+  ⟨true, [102, 97, 100, 100, 32], .void, [.tyval, .lit sComma, .val], .first, false⟩,
+  ⟨true, [102, 115, 117, 98, 32], .void, [.tyval, .lit sComma, .val], .first, false⟩,
+  ⟨true, [102, 109, 117, 108, 32], .void, [.tyval, .lit sComma, .val], .first, false⟩,
+  ⟨true, [102, 100, 105, 118, 32], .void, [.tyval, .lit sComma, .val], .first, false⟩,
+  ⟨true, [102, 114, 101, 109, 32], .void, [.tyval, .lit sComma, .val], .first, false⟩,
+  ⟨true, [102, 99, 109, 112, 32, 102, 97, 108, 115, 101, 32], .void, [.tyval, .lit sComma, .val], .cmp, false⟩,
+  ⟨true, [102, 99, 109, 112, 32, 111, 101, 113, 32], .void, [.tyval, .lit sComma, .val], .cmp, false⟩,
+  ⟨true, [102, 99, 109, 112, 32, 111, 103, 116, 32], .void, [.tyval, .lit sComma, .val], .cmp, false⟩,
+  ⟨true, [102, 99, 109, 112, 32, 111, 103, 101, 32], .void, [.tyval, .lit sComma, .val], .cmp, false⟩,
+  ⟨true, [102, 99, 109, 112, 32, 111, 108, 116, 32], .void, [.tyval, .lit sComma, .val], .cmp, false⟩,
+  ⟨true, [102, 99, 109, 112, 32, 111, 108, 101, 32], .void, [.tyval, .lit sComma, .val], .cmp, false⟩,
+  ⟨true, [102, 99, 109, 112, 32, 111, 110, 101, 32], .void, [.tyval, .lit sComma, .val], .cmp, false⟩,
+  ⟨true, [102, 99, 109, 112, 32, 111, 114, 100, 32], .void, [.tyval, .lit sComma, .val], .cmp, false⟩,
+  ⟨true, [102, 99, 109, 112, 32, 117, 101, 113, 32], .void, [.tyval, .lit sComma, .val], .cmp, false⟩,
+  ⟨true, [102, 99, 109, 112, 32, 117, 103, 116, 32], .void, [.tyval, .lit sComma, .val], .cmp, false⟩,
+  ⟨true, [102, 99, 109, 112, 32, 117, 103, 101, 32], .void, [.tyval, .lit sComma, .val], .cmp, false⟩,
+  ⟨true, [102, 99, 109, 112, 32, 117, 108, 116, 32], .void, [.tyval, .lit sComma, .val], .cmp, false⟩,
+  ⟨true, [102, 99, 109, 112, 32, 117, 108, 101, 32], .void, [.tyval, .lit sComma, .val], .cmp, false⟩,
+  ⟨true, [102, 99, 109, 112, 32, 117, 110, 101, 32], .void, [.tyval, .lit sComma, .val], .cmp, false⟩,
+  ⟨true, [102, 99, 109, 112, 32, 117, 110, 111, 32], .void, [.tyval, .lit sComma, .val], .cmp, false⟩,
+  ⟨true, [102, 99, 109, 112, 32, 116, 114, 117, 101, 32], .void, [.tyval, .lit sComma, .val], .cmp, false⟩,
+  ⟨true, [101, 120, 116, 114, 97, 99, 116, 101, 108, 101, 109, 101, 110, 116, 32], .void, [.tyval, .lit sComma, .tyval], .elem, false⟩,
+  ⟨true, [105, 110, 115, 101, 114, 116, 101, 108, 101, 109, 101, 110, 116, 32], .void, [.tyval, .lit sComma, .tyval, .lit sComma, .tyval], .firstVec, false⟩,
+  ⟨true, [115, 104, 117, 102, 102, 108, 101, 118, 101, 99, 116, 111, 114, 32], .void, [.tyval, .lit sComma, .tyval, .lit sComma, .tyval], .shuffle, false⟩,
+  ⟨true, [97, 108, 108, 111, 99, 97, 32], .void, [.ty], .ptrOf, false⟩
 ]
 
 def phisString (useHex : Int → Bool) (cur : Ty) : List (Operand × Ident) → Bytes
@@ -459,6 +486,11 @@ def secondTyval : List Arg → Option Ty
   | .tyval _ _ :: as => firstTyval as
   | _ :: as => secondTyval as
 
+def thirdTyval : List Arg → Option Ty
+  | [] => none
+  | .tyval _ _ :: as => secondTyval as
+  | _ :: as => thirdTyval as
+
 def firstTy : List Arg → Option Ty
   | [] => none
   | .ty t :: _ => some t
@@ -481,6 +513,10 @@ def defTy (i : Inst) : Option Ty :=
     | .loadTy => firstTy i.args
     | .second => secondTyval i.args
     | .lastTy => lastTy i.args
+    | .elem => (match firstTyval i.args with | some (.vec _ _ e) => some e | _ => none)
+    | .firstVec => (match firstTyval i.args with | some (.vec s n e) => some (.vec s n e) | _ => none)
+    | .shuffle => (match firstTyval i.args, thirdTyval i.args with | some (.vec _ _ e), some (.vec s m _) => some (.vec s m e) | _, _ => none)
+    | .ptrOf => (firstTy i.args).map fun t => .ptr t 0
 
 def env (f : Func) : List (Ident × Ty) :=
   f.params.map (fun p => (p.2, p.1)) ++
@@ -559,6 +595,13 @@ def argLabs : Arg → List Ident
 def labUses (f : Func) : List Ident :=
   f.blocks.flatMap fun b => (instsOf b).flatMap fun i => i.args.flatMap argLabs
 
+/-- every value-yielding instruction gets a type when its scaffold is created (the vector instructions demand a vector first operand: the parser panics otherwise) -/
+def typed (f : Func) : Bool :=
+  f.blocks.all fun b => (instsOf b).all fun i =>
+    match rows[i.row]? with
+    | some r => !r.hasRes || (defTy i).isSome
+    | none => true
+
 /-- the parser on a function definition (asm/local.go): scaffold and AssignIDs (nameless values are numbered, written IDs validated), duplicate
     definitions, undefined uses, label operands that are not blocks (asm/helper.go irBlock); then the operand types -/
 def translate (f : Func) : Option Func :=
@@ -567,7 +610,7 @@ def translate (f : Func) : Option Func :=
   | .ok l =>
     let g := fill f l
     if hasDupI (defs g) then none
-    else if (uses g).all (fun u => (defs g).contains u) && (labUses g).all (fun u => (blockDefs g).contains u) then some (retype g) else none
+    else if (uses g).all (fun u => (defs g).contains u) && (labUses g).all (fun u => (blockDefs g).contains u) && typed g then some (retype g) else none
 
 def parse (ls : List Bytes) : Option Func := (readFunc ls).bind translate
 
@@ -632,7 +675,7 @@ def consistent (f : Func) : Bool :=
     consistent with the definitions -/
 def wfSem (f : Func) : Bool :=
   !hasDupI (defs f) && (uses f).all (fun u => (defs f).contains u) && (labUses f).all (fun u => (blockDefs f).contains u) &&
-    LLVMSpec.agreesFrom 0 (slotsOf f) && consistent f
+    LLVMSpec.agreesFrom 0 (slotsOf f) && consistent f && typed f
 
 def wf (f : Func) : Bool := wfSyn f && wfSem f
 
